@@ -94,6 +94,10 @@ class AbstractChunk(ABC):
         # Begin with a thorough inspection of the dataset
         data = utils.check_data_consistency(data, req_cols=self.DATA_COLS)
 
+        # Drop the user's index: rows get selected and dropped by index label below (and in the
+        # later processing steps), which requires unique labels.
+        data = data.reset_index(drop=True)
+
         # By default we set this flag to false and overwrite if enough hits are present
         self._clouds_above_msa_buffer = False
 
